@@ -15,10 +15,14 @@ import Verif.Model.Constraints
       eng  = what the property allows the CA to answer: `deny` whenever vfy=nc;
       why  = present when the *model of the engine as coded* accepts although vfy=nc, i.e. the
              Lean model predicts a violation, with its cause:
-               v4mapped    an IPv4-mapped IPv6 subtree is re-read as an IPv4 one by the engine
-               other       none of these
-             (the former causes d8:<kind> and rootdrop are repaired: 4a0d6e3, 94a532b; should
-             the code allow such a name again the model says plain `eng=deny vfy=nc`)
+               other       (no cause is known any more: d8, rootdrop, unparsable names and
+                           v4mapped are repaired by 4a0d6e3, 94a532b, 41cbd56, 3d20cbd; should
+                           the code allow such a name again the model says plain `eng=deny vfy=nc`)
+
+  Stage `front` (the same through the HTTP sign/renew/rekey handlers, ACME and SCEP):
+      st=front <as st=chain> fr=<front ends that answered: sign,renew,rekey,acme,scep>
+    output: as st=chain, then ` fr=<front>:<i|c|s>,…` = what C05 demands of each of them
+            (i issued, c client error, s server error; `frontDemand`)
 
   Stage `paths` (source-derived facts, against the tables `issuePaths`, `frontEnds`, `certCreators`):
       st=paths fn=<function>|tpl:<function>|*|frontends|creators
@@ -97,10 +101,34 @@ def names? (kv : List (String × String)) : Option Names := do
   let uris ← list? "," uri? (← lookup kv "uri")
   pure { dns, ips, emails := ems, uris }
 
-/-- cause of a violation the model of the code *as it is* predicts (`vfy=nc` but allowed) -/
-def why (full : List Level) : String :=
-  if full.any (fun l => (l.pIP ++ l.xIP).any fun x => normalizeIP x.ip != x.ip) then "v4mapped"
-  else "other"
+/-- cause of a violation the model of the code *as it is* predicts (`vfy=nc` but allowed). All
+    causes found so far are repaired (d8 4a0d6e3, rootdrop 94a532b, O1 41cbd56, v4mapped 3d20cbd);
+    for chains of parsed certificates `engine_sound_parsed` says this cannot happen. -/
+def why (_full : List Level) : String := "other"
+
+def front? (t : String) : Option Front :=
+  match t with
+  | "sign" => some .sign | "renew" => some .renew | "rekey" => some .rekey
+  | "acme" => some .acme | "scep" => some .scep | _ => none
+def frontS : Front → String
+  | .sign => "sign" | .renew => "renew" | .rekey => "rekey" | .acme => "acme" | .scep => "scep"
+def ansS : FrontAns → String
+  | .issued => "i" | .clientError => "c" | .serverError => "s"
+
+/-- stage `front`: the chain-stage answer followed by what C05 demands of every front end that
+    answered (`frontDemand` of the verdict the property allows the CA to give) -/
+def frontSuffix (kv : List (String × String)) (ints roots : List Cert) (n : Names) : Option String := do
+  let fs ← list? "," front? (← lookup kv "fr")
+  let coded := match chainForSig ints roots with
+    | none => Verdict.allow
+    | some ch => engineUnderTest (ch.map (·.nc)) n
+  -- the verdict the property demands: a refusal whenever the specification rejects
+  let full := (ints ++ roots).map (·.nc)
+  let demanded : Verdict :=
+    if specAccept full n then coded
+    else if coded = .allow then .deny .notPermitted .dns else coded
+  let items := fs.map fun f => s!"{frontS f}:{ansS (frontDemand f demanded)}"
+  pure (" fr=" ++ (if items.isEmpty then "-" else ",".intercalate items))
 
 def evalChain (kv : List (String × String)) : Option String := do
   let ints ← list? "|" cert? (← lookup kv "ints")
@@ -172,6 +200,12 @@ def eval (line : String) : Option String := do
     let n ← names? kv
     pure (verdictS (engineUnderTest chain n))
   | "chain" => evalChain kv
+  | "front" => do
+    let base ← evalChain kv
+    let ints ← list? "|" cert? (← lookup kv "ints")
+    let roots ← list? "|" cert? (← lookup kv "roots")
+    let n ← names? kv
+    pure (base ++ (← frontSuffix kv ints roots n))
   | "paths" => (lookup kv "fn").map evalPaths
   | _ => none
 
